@@ -164,6 +164,7 @@ def run(ctx):
             if cnt[v['finding']] > 40:
                 continue
         keep.append(v)
+    CK.annotate_stability(ctx, keep, judge, want_may=True)
     samples = [dict(CK.strip_case(c), world='<omitted>') for c in cases[:3]]
     return dict(evaluations=sum(v for k, v in stats.items() if k.startswith('runs:')),
                 distinct_nontrivial=stats['nontrivial'],
